@@ -222,6 +222,12 @@ class Exec:
             Obligation(name, list(self.pc), t, kind, "unsat", dict(meta, site=self.cur_site), self.path_id, dict(self.inputs))
         )
 
+    def lemma(self, name: str, goal: Any, **meta: Any) -> None:
+        """assert-then-assume: prove ``goal`` here as its own obligation, then use it as a hypothesis
+        (how intermediate facts with explicit witnesses are handed to later obligations)."""
+        self.oblige(name, goal, kind="lemma", **meta)
+        self.assume(goal)
+
     def canary(self, name: str, goal: Any, **meta: Any) -> None:
         """A deliberately wrong claim: it must be *refuted* (vacuity / engine guard)."""
         t = V.boolterm(goal)
@@ -286,7 +292,8 @@ def is_bytes_term(t: Any) -> Any:
 
 
 class Explorer:
-    def __init__(self, run: Callable[[Exec], None], max_paths: int = 4000, label: str = "") -> None:
+    def __init__(self, run: Callable[[Exec], None], max_paths: int = 4000, label: str = "", bound_k: int | None = None) -> None:
+        self.bound_k = bound_k
         self.run = run
         self.max_paths = max_paths
         self.queue: list[tuple[int, ...]] = [()]
@@ -309,6 +316,8 @@ class Explorer:
             S = Exec(self, prefix, pid)
             S.interp = Interp(S)
             V.push_ctx(S)
+            if self.bound_k is not None:
+                V.BOUND_K.append(self.bound_k)
             outcome = "done"
             try:
                 self.run(S)
@@ -320,6 +329,8 @@ class Explorer:
                 raise Unsupported(f"{self.label}: contract driver let an exception escape: {e.exc!r}") from e
             finally:
                 V.pop_ctx()
+                if self.bound_k is not None:
+                    V.BOUND_K.pop()
             if outcome != "infeasible":
                 self.results.append(
                     PathResult(pid, tuple(S.decisions), outcome, S.obligations, S.functions, S.notes + [f"assumed:{k}: {v}" for k, v in S.assumed.items()])
